@@ -174,7 +174,7 @@ theorem tr_ivd (n : Nat) : Tr AtEof (KindP isNameOrStringK) (inputValueDefinitio
   have hAfter : Tr AtEof (fun _ => True) (ivdAfterTy n) (fun _ cs e => ∃ (d : Option Ast.Value) (ds : List Ast.Directive)
       (pd td : List Elem), TokIs cs (Ast.tDefault d ++ Ast.tDirectives ds) ∧ Ast.wfDefault d = true ∧ dirsOk true ds ∧
         e = pd ++ td ∧ DefaultPre d pd ∧ OptDirs ds td) := by
-    refine (tr_optKind early_atEof .eq (defaultValue n) (optDirsEnd n) _ _ (tr_defaultValue n) (tr_optDirsEnd n)).mono (fun _ h => h) ?_
+    refine (tr_optKind early_atEof .eq (defaultValue n) (optDirsEnd n) _ _ (tr_defaultValueD n) (tr_optDirsEnd n)).mono (fun _ h => h) ?_
     rintro _ cs e ⟨c1, c2, e1, e2, rfl, rfl, h1, ds, hd1, hd2, hd3⟩
     rcases h1 with ⟨v, hv1, hv2, hv3⟩ | ⟨rfl, rfl⟩
     · exact ⟨some v, ds, e1, e2, hv1.append hd1, valueOk_wf true v hv2, hd2, rfl, hv3, hd3⟩
